@@ -216,6 +216,8 @@ func genRequest(c *cors.Config, r R) reqT {
 	default:
 		if mo := matchingOrigins(c); len(mo) > 0 && r.chance(1, 2) {
 			q.hdrs["Origin"] = []string{r.pick(mo)}
+		} else if c != nil && len(c.Origins) > 0 && r.chance(1, 6) {
+			q.hdrs["Origin"] = []string{c.Origins[r.Intn(min(len(c.Origins), 3))]} // a configured pattern, verbatim
 		} else {
 			q.hdrs["Origin"] = []string{r.pick(ops)}
 		}
